@@ -97,6 +97,7 @@ InitH(sc) ==
    deliv |-> {}, delivI |-> {},             \* delivered <<conn, production>> of event connections
    setd  |-> {},                            \* set_data values waiting for the target's next step
    setdopt |-> {},                          \* ... of REFUSED calls (permitted destinations of a call that also named a forbidden one: applied or not)
+   ph    |-> [s \in Sids(sc) |-> "new"],    \* request protocol of every simulator (PR_* clauses): new / idle / step / stepped / data / stopped
    lastse |-> "",                           \* the simulator whose step returned last (rt_check reports about it)
    steps |-> {},                            \* <<sim, tiered time>> of every step begun (kept in debug mode only)
    atT   |-> <<>>,                          \* number of steps begun at integer time t (all simulators): a function whose
@@ -449,7 +450,35 @@ RefEG(sc, h, ev) ==
          \o Cond(\A e \in ev.edges : <<e[1], e[2]>> \in ev.nodes /\ <<e[3], e[4]>> \in ev.nodes /\ EGEdgeOk(sc, e),
                  "EG_edge_not_causal", {e \in ev.edges : ~EGEdgeOk(sc, e)})]
 
-RefStep(sc, h, ev) ==
+\* Request protocol at the simulator-API boundary (clauses PR_*; like EG_* they are conformance of the specification's
+\* picture of a run, not one of the listed properties, and never a verdict): every simulator gets setup_done exactly once,
+\* no simulator is stepped before ALL of them have, requests to one simulator are strictly sequential
+\* (step -> its reply -> get_data iff outputs are connected -> its reply), and nothing is requested after stop.
+\* Switched on by the scenario field proto (recorded executions; the events of MosaikSched carry no SETUP / DB).
+ProtoOn(sc) == IF "proto" \in DOMAIN sc THEN sc.proto ELSE FALSE
+ProtoStep(sc, h, ev) ==
+  LET s == ev.s  ph == h.ph
+      to(x) == [ph EXCEPT ![s] = x]
+      bad(c) == Viol(c, <<s, ev.k, ph>>)
+      after == IF ph[s] = "stopped" THEN bad("PR_request_after_stop") ELSE NoV
+  IN IF ~ProtoOn(sc) \/ ev.k \notin {"SETUP", "SB", "SE", "DB", "DE", "STOP"} THEN [ph |-> ph, v |-> NoV]
+     ELSE CASE ev.k = "SETUP" -> [ph |-> to("idle"), v |-> after \o Cond(ph[s] \in {"new", "stopped"}, "PR_setup_done_repeated_or_after_a_step", <<s, ph[s]>>)]
+            [] ev.k = "SB"    -> [ph |-> to("step"),
+                                  v |-> after \o Cond(ph[s] \in {"idle", "stopped"}, "PR_step_requested_while_another_request_is_outstanding_or_before_setup_done", <<s, ph[s]>>)
+                                        \o Cond(\A x \in Sids(sc) : ph[x] # "new", "PR_step_before_every_simulator_received_setup_done", ph)]
+            [] ev.k = "SE"    -> [ph |-> IF ph[s] = "stopped" THEN ph ELSE to(IF ev.nodata THEN "idle" ELSE "stepped"),
+                                  v |-> Cond(ph[s] \in {"step", "stopped"}, "PR_step_reply_without_request", <<s, ph[s]>>)]
+            \* get_data: mosaik's own request directly after a step with connected outputs - or, while an agent that may
+            \* send asynchronous requests to s is in its step, the agent's get_data passed on to s (s idle)
+            [] ev.k = "DB"    -> [ph |-> to(IF ph[s] = "idle" THEN "data_idle" ELSE "data"),
+                                  v |-> after \o Cond(ph[s] \in {"stepped", "stopped"}
+                                                       \/ (ph[s] = "idle" /\ \E b \in Sids(sc) : ph[b] = "step" /\ AsyncAllowed(sc, s, b)),
+                                                       "PR_get_data_neither_after_a_step_with_connected_outputs_nor_for_an_agent", <<s, ph>>)]
+            [] ev.k = "DE"    -> [ph |-> IF ph[s] = "stopped" THEN ph ELSE to("idle"),
+                                  v |-> Cond(ph[s] \in {"data", "data_idle", "stopped"}, "PR_get_data_reply_without_request", <<s, ph[s]>>)]
+            [] OTHER          -> [ph |-> to("stopped"), v |-> Cond(ph[s] # "stopped", "PR_stopped_twice", <<s>>)]
+
+RefStep0(sc, h, ev) ==
   IF h.dead THEN
      \* the bookkeeping stopped after a step nobody demanded; how the run ENDS is still judged (C05 is about the outcome)
      [h |-> h,
@@ -465,6 +494,9 @@ RefStep(sc, h, ev) ==
          [] ev.k = "STOP" -> [h |-> [h EXCEPT !.stops[ev.s] = @ + 1], v |-> NoV]
          [] ev.k = "FAULT" -> [h |-> [h EXCEPT !.fault = IF @ = None THEN <<ev.s, ev.kind>> ELSE @], v |-> NoV]
          [] OTHER        -> [h |-> h, v |-> NoV]
+
+RefStep(sc, h, ev) ==
+  LET r == RefStep0(sc, h, ev)  p == ProtoStep(sc, h, ev) IN [h |-> [r.h EXCEPT !.ph = p.ph], v |-> r.v \o p.v]
 
 Clauses(v) == {v[i].c : i \in 1..Len(v)}
 =============================================================================
